@@ -39,6 +39,64 @@ def c11_frame():
     return f
 
 
+@expectation('c11_spins')
+def c11_spins():
+    def f(res):
+        r = res[0]
+        if 'error' in r:
+            return False, 'native: %r' % (r,)
+        return (r.get('finished') is False, 'native: the decoder %s on these bytes' % ('is still running after 3 s (it never returns: the runtime worker it runs on is lost)'
+                                                                                      if r.get('finished') is False else 'returns (%s)' % r.get('result')))
+    return f
+
+
+def o1_startup_decoder(chk, prog, n):
+    """parse_startup on the parameter block of a StartupMessage (what get_startup hands over once the length and the protocol code are read)."""
+    name = 'O1-parse_startup-%dbytes' % n
+    ob = chk.begin(name, 'parse_startup / parse_params (reachable BEFORE authentication) on a parameter block of %d arbitrary bytes: the call terminates within the '
+                   'unwinding bound in Ok / Err / an unwinding panic of the sender\'s task -- it never spins (a decoder that does not return keeps a runtime '
+                   'worker thread for good)' % n, {'decoder': 'parse_startup', 'body_bytes': n})
+    ip = chk.interp(prog, name)
+    f = fn(prog, 'messages::parse_startup')
+    outcomes = {'ok': 0, 'err': 0, 'panic': 0}
+    panics = set()
+
+    # (a legitimate decoder loops at most once per input byte: the unwinding bound is set far above that, far below the engine default)
+    ip.MAX_BLOCK_VISITS = 200 + 20 * n
+    found = []
+
+    def harness(ip_):
+        if found:
+            return
+        body = [ip_.fresh(8, 'b%d' % i) for i in range(n)]
+        try:
+            r = ip_.call_function(f, [Seq(list(body), 'bytesmut')])
+            outcomes['ok' if variant(ip_, r, 'Result') == 'Ok' else 'err'] += 1
+        except Panic as p:
+            outcomes['panic'] += 1
+            panics.add(p.msg[:70])
+            return
+        except Inconclusive as e:
+            if 'unwinding bound hit' in str(e) or 'step bound hit' in str(e):
+                m = ip_.model_for()
+                hx = hexof(m, body)
+                chk.report(ob, 'C11/O1/no-termination/parse_startup', 'parse_startup does not come back on a %d-byte parameter block (a loop runs past the unwinding bound of %d '
+                           'iterations on %d input bytes): one unauthenticated packet pins a runtime worker' % (n, ip_.MAX_BLOCK_VISITS, n), {'body_hex': hx},
+                           {'commands': [{'op': 'decode_terminates', 'which': 'parse_startup', 'hex': hx}], 'expect': ['c11_spins']})
+                found.append(1)
+                return
+            raise
+        ob.nontrivial += 1
+    ip.explore(harness, max_paths=60000)
+    chk.absorb(ob, ip)
+    ob.extra['outcomes'] = dict(outcomes)
+    ob.extra['sender_only_panic_sites'] = sorted(panics)
+    ob.samples.append({'outcomes': dict(outcomes), 'panic_sites': sorted(panics)[:4]})
+    if sum(outcomes.values()) == 0 and ob.status == 'pending':
+        ob.status = 'vacuous'
+    chk.end(ob)
+
+
 def o1_decoder(chk, prog, which, n):
     name = 'O1-%s-%dbytes' % (which, n)
     ob = chk.begin(name, '%s on a framed client message (as delivered by read_message) with %d arbitrary body bytes: the call terminates within the '
@@ -100,6 +158,14 @@ def o1_decoder(chk, prog, which, n):
             outcomes['panic'] += 1
             panics.add(p.msg[:70])
             return
+        except Inconclusive as e:
+            if ('unwinding bound hit' in str(e) or 'step bound hit' in str(e)) and which in ('Parse', 'Bind', 'Describe', 'Close', 'Bind::get_name', 'Parse::get_name'):
+                m = ip_.model_for()
+                chk.report(ob, 'C11/O1/no-termination/' + which, '%s does not come back on a %d-byte body (a loop runs past the unwinding bound of %d iterations)' %
+                           (which, n, ip_.MAX_BLOCK_VISITS), {'message_hex': hexof(m, msg)},
+                           {'commands': [{'op': 'decode_terminates', 'which': which, 'hex': hexof(m, msg)}], 'expect': ['c11_spins']})
+                return
+            raise
         except StopPath as s:
             if s.tag == 'process_exit':
                 m = ip_.model_for()
@@ -206,7 +272,7 @@ def _dispatch(chk, f, args):
 def main(chk):
     chk.explanation = (
         'Solver-based checking that hostile client bytes stay the sender\'s problem, executed from MIR: every client-reachable decoder '
-        '(Parse/Bind/Describe/Close decode + re-encode, get_name, Bind::rename, infer_shard_from_bind, try_execute_command, '
+        '(parse_startup on the pre-authentication parameter block, Parse/Bind/Describe/Close decode + re-encode, get_name, Bind::rename, infer_shard_from_bind, try_execute_command, '
         'QueryRouter::parse up to the SQL parser) runs on framed messages whose body bytes are symbolic, and read_message itself (both overflow '
         'flavours) on streams whose length field ranges over negative, too-small and valid values: all paths terminate within the unwinding bound in Ok / Err / an unwinding panic, none '
         'reaches process exit, and anything re-encoded for the server is well-framed. The consequence of a panic or early return while a '
@@ -229,6 +295,8 @@ def main(chk):
     for n in (0, 1, 4):
         tasks.append((o1_decoder, (prog, 'try_execute_command', n)))
         tasks.append((o1_decoder, (prog, 'QueryRouter::parse', n)))
+    for n in ((0, 1, 2, 5, 7, 10) if not chk.thorough else range(0, 15)):
+        tasks.append((o1_startup_decoder, (prog, n)))
     prog_off = chk.program('off')
     for pr, fl in ((prog, 'on'), (prog_off, 'off')):
         tasks.append((o1_read_message, (pr, -6, 3, 2, fl)))
